@@ -84,7 +84,39 @@ def malformed_stream(c):
         return '<%s%s>%s</%s>' % (t, a, kids, t)
     n = 300 if c.tier == 'quick' else 5000
     docs = []
-    for _ in range(n):
+    # half of the stream: valid charts of the reference fragment with one or two XML-level mutations
+    # (nearly valid documents reach the interpreter much more often than random vocabulary trees)
+    import re as _re
+    def mutate(xml):
+        k = rng.randint(0, 9)
+        ids = _re.findall(r'id="(s\d+)"', xml)
+        if k == 0 and ids:      # dangling transition target
+            return _re.sub(r'target="s\d+', 'target="nosuch', xml, count=1)
+        if k == 1 and ids:      # duplicate id
+            return xml.replace('id="%s"' % rng.choice(ids), 'id="%s"' % rng.choice(ids), 1)
+        if k == 2:              # initial attribute naming a non-descendant / unknown state
+            return xml.replace('<state id=', '<state initial="%s" id=' % rng.choice(ids + ['nosuch']), 1)
+        if k == 3:              # history without default transition
+            return _re.sub(r'(<history[^>]*>)<transition[^>]*></transition>', r'\1', xml, count=1)
+        if k == 4:              # executable content directly below a state
+            return xml.replace('</state>', '<raise event="x"/></state>', 1)
+        if k == 5:              # empty event / cond attributes
+            return _re.sub(r'event="[^"]*"', 'event=""', xml, count=1)
+        if k == 6:              # a state below <final>
+            return xml.replace('</final>', '<state id="sX"/></final>', 1)
+        if k == 7:              # target-less initial transition
+            return _re.sub(r'(<initial><transition) target="[^"]*"', r'\1', xml, count=1)
+        if k == 8:              # unknown element and attribute
+            return xml.replace('<onentry>', '<onentry><frobnicate x="1"/>', 1).replace('<state id=', '<state bogus="1" id=', 1)
+        return xml.replace('<transition', '<transition type="bogus"', 1)
+    for _ in range(n // 2):
+        dm = rng.choice(['null', 'lua', 'promela'])
+        t = G.rand_chart(rng, content=0.5, faults=0.1, only_in=(dm == 'null'))
+        x = G.to_scxml(t, dm)
+        for _k in range(rng.randint(1, 2)):
+            x = mutate(x)
+        docs.append(x.replace('<?xml version="1.0"?>', ''))
+    for _ in range(n - n // 2):
         dm = rng.choice(['null', 'lua', 'promela'])
         body = ''.join(gen(0) for _ in range(rng.randint(1, 4)))
         docs.append('<scxml xmlns="http://www.w3.org/2005/07/scxml" version="1.0" datamodel="%s" name="m"%s>%s</scxml>' % (
